@@ -102,15 +102,21 @@ def directed_cases(tier):
               "order": ["root", "p1", "p2", "mid", "lib"], "features": ["directed-same-variant-different-subtree"]}
     for mode in ("dev", "build"):
         cm = "develop" if mode == "dev" else "release"
-        ops = [[mode, 1, 1], ["clean", cm, True, False], ["clean", cm, False, False], [mode, 2, 2],
+        ops = [[mode, 1, 1], ["clean", cm, False, True], ["clean", cm, False, False], [mode, 2, 2],
                ["edit", {"kind": "dep_env", "recipe": "p2", "index": 0, "var": "VA", "value": "c"}], [mode, 1, 3],
                ["clean", cm, False, False], [mode, 1, 4]]
         out.append({"model": model2, "ops": ops, "directed": "same package above two variants of a passed-on dependency"})
         # clean right after an edit that gives the upper packages new (never built) variants
         ops = [[mode, 1, 1],
                ["edit", {"kind": "dep_env", "recipe": "p2", "index": 0, "var": "VA", "value": "d"}],
-               ["clean", cm, True, False], ["clean", cm, False, False], [mode, 1, 2], [mode, 1, 3]]
+               ["clean", cm, False, True], ["clean", cm, False, False], [mode, 1, 2], [mode, 1, 3]]
         out.append({"model": model2, "ops": ops, "directed": "clean between an edit and the rebuild"})
+        # a dry run while a variant is (temporarily) gone, then the edit is taken back
+        ops = [[mode, 1, 1],
+               ["edit", {"kind": "dep_env", "recipe": "p1", "index": 0, "var": "VA", "value": "b"}],
+               ["clean", cm, False, True],
+               ["edit", {"kind": "revert", "to": 0}], [mode, 1, 2]]
+        out.append({"model": model2, "ops": ops, "directed": "dry run while a variant is gone, then revert"})
     return out
 
 def _ws_of_script(script):
@@ -160,6 +166,8 @@ def run_case(case):
         prev_maps = {True: None, False: None}
         uptodate = False    # did the last op leave everything (develop mode) up to date?
         last_mode_built = None
+        last_built = {}     # mode -> digest of the project state of the last successful build in that mode
+        disturbed = {}      # mode -> a real clean ran since then
         for n, op in enumerate(case["ops"]):
             if op[0] == "edit":
                 model = projgen.apply_edit(model, op[1], hist)
@@ -177,7 +185,21 @@ def run_case(case):
                     stats.inc("failed_builds")      # project broken by an edit; nothing to assert
                     log.append((n, op[0], r.rc))
                     uptodate = False
+                    disturbed[develop] = True
                     continue
+                # nothing but edits that were taken back and dry runs since the last successful build
+                # of exactly this project state: no result may have been lost
+                md = common.digest_of(projgen.files_of(model))
+                if last_built.get(develop) == md and not disturbed.get(develop):
+                    redone = [s_ for s_ in r.scripts_run() if "/build/" in s_ or "/dist/" in s_]
+                    if redone:
+                        viol = {"kind": "dry-run-lost-up-to-date-result",
+                                "detail": "op %d: the project is in the state that was built last, only edits that were reverted "
+                                          "and dry runs happened since, yet %s re-executed" % (n, sorted(redone))}
+                        break
+                    stats.inc("probe_rebuild_of_built_state_executes_nothing")
+                last_built[develop] = md
+                disturbed[develop] = False
                 try:
                     mapping = bobq.query(proj, develop=develop)
                 except bobq.QueryError:
@@ -234,6 +256,8 @@ def run_case(case):
             # clean
             mode, src, dry = op[1], op[2], op[3]
             develop = mode == "develop"
+            if not dry:
+                disturbed[develop] = True
             try:
                 mapping = bobq.query(proj, develop=develop)
             except bobq.QueryError:
